@@ -138,7 +138,8 @@ def build():
                               tags=["plain", "npn"]))
     S.append(Scenario("tls12-ecdhe_rsa-alpn", (3, 3),
                       _kx("ecdhe_rsa", (3, 3), "rsa", alpn_c=[b"h2", b"x"],
-                          alpn_s=[b"x", b"h2"]), tags=["plain", "alpn"]))
+                          alpn_s=[b"x", b"h2"], sni="WWW.Example.COM"),
+                      tags=["plain", "alpn"]))
     S.append(Scenario("tls12-ecdhe_ed25519", (3, 3),
                       _kx("ecdhe_ecdsa", (3, 3), "ed25519"),
                       tags=["plain"]))
